@@ -182,6 +182,31 @@ def one_tree(rng, acc, d):
         if hc != expected_tree(C):
             acc.violation("tree-vs-walker:after-edit", f"after edit {edit} dir_hashsums differs from the walker", {"spec": describe(spec), "links": links, "edit": edit})
             return
+    # ---- the SAME path, already hashed above, edited in place keeping its size and both timestamps (what an editor with
+    # timestamp preservation, rsync -t or a restored backup does): content decides, not (path, size, mtime)
+    ff = flat_files(spec)
+    cand = [f for f in fs if len(ff[f]) > 0]
+    if cand:
+        f = rng.choice(cand)
+        st = os.stat(A / f)
+        b = bytearray(ff[f])
+        i = rng.randrange(len(b))
+        b[i] ^= 1 << rng.randrange(8)
+        with open(A / f, "r+b") as fh:
+            fh.write(bytes(b))
+        os.utime(A / f, ns=(st.st_atime_ns, st.st_mtime_ns))
+        st2 = os.stat(A / f)
+        h2 = dir_hashsums(A)
+        acc.count("edits.inplace-same-size-mtime")
+        if (st2.st_size, st2.st_mtime_ns) == (st.st_size, st.st_mtime_ns):
+            acc.count("edits.inplace-stat-identical")
+        if h2 == ha:
+            acc.violation("edit-not-detected:inplace-same-size-mtime", f"byte {i} of {f} changed in place (size and mtime kept): the hashsum tree of the same directory is unchanged",
+                          {"spec": describe(spec), "links": links, "edit": "inplace"})
+            return
+        if h2 != expected_tree(A):
+            acc.violation("tree-vs-walker:after-edit", "after the in-place edit dir_hashsums differs from the walker", {"spec": describe(spec), "links": links, "edit": "inplace"})
+            return
     if acc.evaluations % 50 == 1:
         acc.sample({"files": {f: len(flat_files(spec)[f]) for f in fs}, "dirs": ds, "links": links})
 
@@ -442,7 +467,7 @@ def run_unit(u, acc):
 
 def inconclusive(cov):
     c = cov["counters"]
-    return [f"monitor counter {k} is zero" for k in ("trees_hashed", "equal_content_pairs", "escape_checks", "hash_checks", "edits.byte", "edits.retarget-same-content", "edits.link2file") if not c.get(k)]
+    return [f"monitor counter {k} is zero" for k in ("trees_hashed", "equal_content_pairs", "escape_checks", "hash_checks", "edits.byte", "edits.inplace-stat-identical", "edits.retarget-same-content", "edits.link2file") if not c.get(k)]
 
 
 def replay(case, acc):
